@@ -802,6 +802,26 @@ pub fn e2_jobs(prop: &str, tier: Tier) -> Vec<E2Job> {
             jobs.push(E2Job { label: "thread-local plans, <= 2 ops".into(), scenarios: scen(&tl(2), &[Mode::Dispatch, Mode::Par, Mode::Seq, Mode::Async], &[1]), bounds: b(if q { 2 } else { 3 }), delay: false });
             jobs.push(E2Job { label: "thread-local plans, <= 2 ops, 2 dispatches".into(), scenarios: scen(&tl(2), &[Mode::Dispatch, Mode::Async], &[2]), bounds: b(if q { 1 } else { 2 }), delay: false });
             {
+                // the dispatcher lives on a worker of a FOREIGN pool (of 1 / 2 threads) and is dispatched from there: its
+                // thread-local systems run on that worker, after everything its own pool (user-supplied / default) ran
+                let mut scs = Vec::new();
+                for p in tl(2) {
+                    let info = PlanInfo::of(&p);
+                    if !info.nodes.iter().any(|n| n.kind == crate::spec::Kind::Tl && n.parent.is_none()) || info.nodes.iter().any(|n| n.parent.is_some()) {
+                        continue;
+                    }
+                    for foreign in [1usize, 2] {
+                        for own_user in [Some(2usize), None] {
+                            let mut s = Scenario::plain(p.clone(), Mode::Dispatch, 2);
+                            s.foreign_pool = Some(foreign);
+                            s.user_pool = own_user;
+                            scs.push(s);
+                        }
+                    }
+                }
+                jobs.push(E2Job { label: "thread-local plans (<= 2 ops, no batch) registered, built and dispatched on a worker of a foreign pool of 1 / 2 threads".into(), scenarios: scs, bounds: b(if q { 0 } else { 1 }), delay: false });
+            }
+            {
                 // more thread-local systems than the inline capacity of the list, next to two ordinary systems
                 let tlop = || Op::Tl(crate::spec::SysSpec { name: String::new(), reads: vec![], writes: vec![0], time: 3, deps: vec![] });
                 let mut plans = Vec::new();
